@@ -866,13 +866,15 @@ _C08_BOUND = ("tiny model (A -> B C D, 2 resonances, 300 data + 60 background ro
 
 
 @group(["C08"], "iface.fit/first_order", _FIT_FUNCS, env="tf", kind="B",
-       bound=_C08_BOUND + "methods: quick BFGS; thorough BFGS, CG, test (fit_improve.minimize), Nelder-Mead (maxiter 1, 5, 40)")
+       bound=_C08_BOUND + "methods: BFGS (quick: sets tied, two_sided, gauss; thorough all sets, maxiter 1, 5, library default); CG, test "
+                          "(fit_improve.minimize), Nelder-Mead (quick: set none, maxiter 5; thorough: sets none, two_sided, maxiter 1, 5, 40)")
 def fit_first_order(ctx):
     if ctx.tier == "quick":
         _fit_group(ctx, ["BFGS"], ["tied", "two_sided", "gauss"], [1, 5, 30])
+        _fit_group(ctx, ["CG", "test", "Nelder-Mead"], ["none"], [5], second_fit=False)
     else:
-        _fit_group(ctx, ["BFGS", "CG", "test"], list(CONSTRAINT_SETS), [1, 5, None])
-        _fit_group(ctx, ["Nelder-Mead"], ["none", "two_sided"], [1, 5, 40])
+        _fit_group(ctx, ["BFGS"], list(CONSTRAINT_SETS), [1, 5, None])
+        _fit_group(ctx, ["CG", "test", "Nelder-Mead"], ["none", "two_sided"], [1, 5, 40])
 
 
 @group(["C08"], "iface.fit/lbfgsb", _FIT_FUNCS, env="tf", kind="B", bound=_C08_BOUND + "method L-BFGS-B")
@@ -884,17 +886,17 @@ def fit_lbfgsb(ctx):
 
 
 @group(["C08"], "iface.fit/second_order", _FIT_FUNCS, env="tf", kind="B",
-       bound=_C08_BOUND + "methods: quick Newton-CG; thorough Newton-CG (all sets), trust-ncg, trust-krylov, trust-exact (none, tied, one_sided); these ignore maxiter: one run + second fit")
+       bound=_C08_BOUND + "methods: quick Newton-CG; thorough Newton-CG (all sets), trust-ncg, trust-krylov, trust-exact (none, one_sided); these ignore maxiter: one run + second fit")
 def fit_second_order(ctx):
     if ctx.tier == "quick":
         _fit_group(ctx, ["Newton-CG"], ["one_sided", "gauss"], [None])
     else:
         _fit_group(ctx, ["Newton-CG"], list(CONSTRAINT_SETS), [None])
-        _fit_group(ctx, ["trust-ncg", "trust-krylov", "trust-exact"], ["none", "tied", "one_sided"], [None])
+        _fit_group(ctx, ["trust-ncg", "trust-krylov", "trust-exact"], ["none", "one_sided"], [None])
 
 
 @group(["C08"], "iface.fit/hessp_minuit", _FIT_FUNCS, env="tf", kind="B", tiers=("thorough",),
-       bound=_C08_BOUND + "methods Newton-CG-p, trust-ncg-p, trust-krylov-p (Hessian-vector products; sets none, gauss), iminuit (tied, two_sided, gauss), "
+       bound=_C08_BOUND + "methods Newton-CG-p, trust-ncg-p, trust-krylov-p (Hessian-vector products; sets none, gauss; started 2% off a BFGS optimum), iminuit (tied, two_sided, gauss), "
                           "minuit (tied, two_sided) - the minuit names are skipped and recorded if iminuit is not importable")
 def fit_hessp_minuit(ctx):
     try:
@@ -914,6 +916,12 @@ def fit_hessp_minuit(ctx):
             for cset in csets:
                 cfg, config, bounds = _fit_config(ctx, cset, seed=47)
                 samples = L.make_samples(config, 800, n_data=300, n_phsp=1000, n_bg=60, weights=None, phsp_weights=None)
+                if method.endswith("-p"):
+                    # a Hessian-vector product costs ~1.5 s and a fit from the seeded start needs ~250 of them: start these methods 2% away
+                    # from a BFGS optimum (harness pre-fit; "all starting points" includes this one)
+                    with L.quiet():
+                        config.fit(data=[samples[0]], phsp=[samples[1]], bg=[samples[2]], method="BFGS", print_init_nll=False)
+                        config.set_params({k: float(v) * 1.02 for k, v in config.get_params(trainable_only=True).items()})
                 if _fit_once(ctx, agg, method, cset, None, cfg, config, bounds, samples, tmp, "first"):
                     _fit_once(ctx, agg, method, cset, None, cfg, config, bounds, samples, tmp, "second")
     agg.emit(ctx)
